@@ -2277,6 +2277,76 @@ silent_all("metadata-appended-after-timeout", [
 	return h"""},
 ], "the timeout stored first, the metadata appended (Header.Add) afterwards: the server reads the first value", ["C09", "C03", "C04", "C13"])
 
+# ------------------------------------------------------------------ wave-4 answers
+v("C02", "unary-reply-read-error-shadowed", "httpgrpc/client.go",
+  """		b, err = ioutil.ReadAll(reply.Body)
+		reply.Body.Close()""", """		body, err := ioutil.ReadAll(reply.Body)
+		if cerr := reply.Body.Close(); err == nil {
+			err = cerr
+		}
+		b = body""", "R1", "provenance", "the body read error lives in a variable of the goroutine: a reply cut short is decoded as the response")
+v("C07", "unary-reply-read-error-shadowed", "httpgrpc/client.go",
+  """		b, err = ioutil.ReadAll(reply.Body)
+		reply.Body.Close()""", """		body, err := ioutil.ReadAll(reply.Body)
+		if cerr := reply.Body.Close(); err == nil {
+			err = cerr
+		}
+		b = body""", "R3", "provenance", "same, under C07")
+v("C04", "readmessage-recheck-only-when-closed", "inprocgrpc/in_process.go",
+  """		if err := ctx.Err(); err != nil {
+			return frame{}, err
+		}
+		if !ok {
+			return frame{}, io.EOF
+		}
+		return m, nil""", """		if !ok {
+			if err := ctx.Err(); err != nil {
+				return frame{}, err
+			}
+			return frame{}, io.EOF
+		}
+		return m, nil""", "R6", "context-rechecked", "a dequeued frame is returned without looking at the context again")
+v("C04", "header-closes-stream-on-any-error", "inprocgrpc/in_process.go",
+  """		if err != nil && err != io.EOF {
+			return nil, err
+		}
+		if err == io.EOF {
+			s.state = streamStateClosed
+		} else {""", """		if err != nil {
+			s.state = streamStateClosed
+			if err != io.EOF {
+				return nil, err
+			}
+		} else {""", "R5", "end-observed", "Header() enters the closed state when the context ended while waiting")
+v("C09", "remaining-time-against-callers-instant", "httpgrpc/client.go", None, None, "R3", "floor", "the remaining time is measured against an instant taken at the start of the call", edits=[
+    {"file": "httpgrpc/client.go", "old": "func headersFromContext(ctx context.Context) http.Header {", "new": "func headersFromContext(ctx context.Context, now time.Time) http.Header {"},
+    {"file": "httpgrpc/client.go", "old": "		timeout := time.Until(deadline)", "new": "		timeout := deadline.Sub(now)"},
+    {"file": "httpgrpc/client.go", "old": "	h := headersFromContext(ctx)\n	h.Set(\"Content-Type\", UnaryRpcContentType_V1)", "new": "	h := headersFromContext(ctx, start)\n	h.Set(\"Content-Type\", UnaryRpcContentType_V1)"},
+    {"file": "httpgrpc/client.go", "old": "	h := headersFromContext(ctx)\n	h.Set(\"Content-Type\", StreamRpcContentType_V1)", "new": "	h := headersFromContext(ctx, start)\n	h.Set(\"Content-Type\", StreamRpcContentType_V1)"},
+    {"file": "httpgrpc/client.go", "old": "func (ch *Channel) Invoke(ctx context.Context, methodName string, req, resp interface{}, opts ...grpc.CallOption) error {\n", "new": "func (ch *Channel) Invoke(ctx context.Context, methodName string, req, resp interface{}, opts ...grpc.CallOption) error {\n	start := time.Now()\n"},
+    {"file": "httpgrpc/client.go", "old": "func (ch *Channel) NewStream(ctx context.Context, desc *grpc.StreamDesc, methodName string, opts ...grpc.CallOption) (grpc.ClientStream, error) {\n", "new": "func (ch *Channel) NewStream(ctx context.Context, desc *grpc.StreamDesc, methodName string, opts ...grpc.CallOption) (grpc.ClientStream, error) {\n	start := time.Now()\n"},
+])
+silent_all("remaining-time-sub-now-in-place", [
+    {"file": "httpgrpc/client.go", "old": "		timeout := time.Until(deadline)", "new": "		timeout := deadline.Sub(time.Now())"},
+], "deadline.Sub(time.Now()) in the encoder is what time.Until does", ["C09", "C04"])
+v("C09", "one-bound-for-all-units", "httpgrpc/server.go",
+  "				if timeoutVal <= math.MaxInt64/int64(unit) {", "				if timeoutVal <= math.MaxInt64/int64(time.Hour) {", "R4", "overflow-guard", "one constant bound (safe for hours) saturates wire-legal values in the finer units")
+v("C08", "single-response-flag-from-registered-desc", "inprocgrpc/in_process.go",
+  "		responseStream: desc.ServerStreams,", "		responseStream: md.ServerStreams,", "R1", "flag-from-caller-descriptor", "the single-response flag is read from the registered descriptor")
+v("C08", "reader-skips-empty-frames", "httpgrpc/client.go",
+  "		msg := make([]byte, sz)\n		_, rErr = io.ReadAtLeast(reply.Body, msg, int(sz))", "		if sz == 0 {\n			continue\n		}\n		msg := make([]byte, sz)\n		_, rErr = io.ReadAtLeast(reply.Body, msg, int(sz))", "R1", "every-frame-handed-over", "zero-length frames are skipped by the reply reader")
+v("C07", "readprotomessage-empty-fast-path", "httpgrpc/io.go", None, None, "R5", "success-needs-decode", "an empty frame returns before the decode: the destination keeps its previous content", patch="seeded/C07-w4-m1/patch.diff", edits=[
+    {"file": "httpgrpc/io.go", "old": "type strAddr string", "new": "type strAddr string // unchanged"},
+])
+v("C02", "write-failed-only-for-io-errors", "httpgrpc/server.go",
+  """	err := writeProtoMessage(s.w, s.codec, m, false)
+	if err != nil {
+		s.writeFailed = true
+	}""", """	err := writeProtoMessage(s.w, s.codec, m, false)
+	if _, isStatus := status.FromError(err); !isStatus {
+		s.writeFailed = true
+	}""", "R2", "set-on-every-failed-write", "the write-failed flag depends on the class of the error")
+
 # ------------------------------------------------------------------ wave-2 rules (C15-C20)
 v("C15", "methods-scratch-slice-reused", "server.go",
   """	for _, svc := range m {
